@@ -1,0 +1,30 @@
+//go:build verif
+
+package dkg
+
+import "sort"
+
+// VerifSnapshot is a read-only copy of the generator's protocol state, for the
+// runtime monitors under /verif (build tag verif). Not compiled into normal builds.
+type VerifSnapshot struct {
+	Phase          int
+	Status         string
+	Evicted        []uint32
+	EvictedHolders []uint32
+	ValidShares    []uint32
+}
+
+// VerifSnapshot returns the current protocol state.
+func (d *DistKeyGenerator) VerifSnapshot() VerifSnapshot {
+	s := VerifSnapshot{Phase: int(d.state)}
+	if d.statuses != nil {
+		s.Status = d.statuses.String()
+	}
+	s.Evicted = append(s.Evicted, d.evicted...)
+	s.EvictedHolders = append(s.EvictedHolders, d.evictedHolders...)
+	for k := range d.validShares {
+		s.ValidShares = append(s.ValidShares, k)
+	}
+	sort.Slice(s.ValidShares, func(i, j int) bool { return s.ValidShares[i] < s.ValidShares[j] })
+	return s
+}
